@@ -556,7 +556,7 @@ def _iterm(c, v):
     return v if c == 1 else "%d * %s" % (c, v)
 
 
-def gen_affine(rng, allow_k3=False, allow_occ=False):
+def gen_affine(rng, allow_k3=False, allow_occ=False, two_red_p=0.2):
     """Integer-affine accesses: convolution with stride/dilation, subsampling; 1-D or 2-D,
     optional plain channel ranks; optional shape partitioning of the output rank with the
     input rank following it."""
@@ -590,7 +590,7 @@ def gen_affine(rng, allow_k3=False, allow_occ=False):
             f_ranks.append(d["s"]); f_acc.append(d["s"].lower())
         i_acc.append(" + ".join(terms))
     # a second reduction variable inside the first affine access: O[q] = I[q + s + 2*v] * F[s] * G[v]
-    two_red = ndim == 1 and dims[0]["s"] and not chan_c and not chan_m and rng.random() < 0.2
+    two_red = ndim == 1 and dims[0]["s"] and not chan_c and not chan_m and rng.random() < two_red_p
     if two_red:
         dims[0]["c"] = rng.choice([1, 1, 2])
         i_acc[-1] = i_acc[-1] + " + " + _iterm(dims[0]["c"], "v")
@@ -982,6 +982,9 @@ def gen_mixed(rng, weights=None):
         spec, meta = gen_affine(rng)
     elif c == "A+":
         spec, meta = gen_affine(rng, allow_occ=True)
+    elif c == "A2":
+        # several index variables inside one access more often (order of first appearance within an access)
+        spec, meta = gen_affine(rng, two_red_p=0.6)
     elif c == "K":
         spec, meta = gen_cascade(rng)
     elif c == "T":
